@@ -225,14 +225,14 @@ impl<F: PathFetcher> PathSet<F> {
                 let mut sync_guard = self.shared.sync.lock().unwrap();
                 sync_guard.ongoing_start = None;
                 sync_guard.initialized = true;
+                #[cfg(anapaya_scion_sdk_verif)]
+                crate::path::manager::verif_sync::sync_event("exit_notify", &self.shared, &sync_guard);
                 sync_guard.completed_notify.notify_waiters();
 
                 // On exit, set error state - handles could still be around
                 sync_guard.current_error = Some(Arc::new(PathFetchError::InternalError(
                     format!("PathSet task exited: {exit_reason}").into(),
                 )));
-                #[cfg(anapaya_scion_sdk_verif)]
-                crate::path::manager::verif_sync::sync_event("exit_notify", &self.shared, &sync_guard);
 
                 // Clear active path
                 self.shared.active_path.store(None);
@@ -504,9 +504,9 @@ impl<F: PathFetcher> PathSet<F> {
             let mut notify_guard = self.shared.sync.lock().unwrap();
             notify_guard.ongoing_start = None;
             notify_guard.initialized = true;
-            notify_guard.completed_notify.notify_waiters();
             #[cfg(anapaya_scion_sdk_verif)]
             crate::path::manager::verif_sync::sync_event("fetch_done", &self.shared, &notify_guard);
+            notify_guard.completed_notify.notify_waiters();
         }
 
         tracing::debug!("Completed path refetch and update");
